@@ -4,7 +4,7 @@ using namespace vf;
 
 namespace {
 
-void one_case(Ctx &c) {
+void case_impl(Ctx &c, bool faults) {
   Sim s(c); World w(s);
   s.nodeid = (uint8_t)(1 + c.t.below(127));
   w.mandatory();
@@ -46,7 +46,7 @@ void one_case(Ctx &c) {
     if (!exp.empty()) CHECK(c, s.tx.back().d[2] == model_reg(), "emcy-register-byte", "%s: last frame carries error register %02X, expected the updated register %02X", what, s.tx.back().d[2], model_reg());
     s.clear_tx();
   };
-  int steps = 0;
+  int steps = 0, send_faults = 0;
   while (!c.t.exhausted() && steps < (c.thorough ? 120 : 60)) {
     steps++; c.ops++;
     static const uint16_t W[9] = {40, 22, 6, 8, 10, 8, 6, 4, 4};
@@ -56,7 +56,8 @@ void one_case(Ctx &c) {
       int e = (int)c.t.below(NE);                      // error numbers beyond the table are not in the statement (exercised for memory safety in C01)
       int ee = e;
       bool usr = c.t.coin(); CO_EMCY_USR u; u.Hist = c.t.u16(); for (int k = 0; k < 5; k++) u.Emcy[k] = c.t.byte();
-      s.api_begin(); COEmcySet(&s.node->Emcy, (uint8_t)e, usr ? &u : 0); s.api_end("COEmcySet");
+      bool lost = faults && c.t.chance(70); if (lost) { s.can_send_fail = 1; send_faults++; }   // mode send-faults: the CAN driver refuses the next frame - that frame is lost, nothing else changes
+      s.api_begin(); COEmcySet(&s.node->Emcy, (uint8_t)e, usr ? &u : 0); s.api_end("COEmcySet"); s.can_send_fail = 0;
       VLOG(c, "set(%d%s) class %u code %04X", e, usr ? ", user data" : "", s.emcy[ee].Reg, s.emcy[ee].Code);
       std::vector<XF> exp;
       if (!active[ee]) {
@@ -64,14 +65,17 @@ void one_case(Ctx &c) {
         if (depth) { mh.insert(mh.begin(), (uint32_t)s.emcy[ee].Code | (usr ? (uint32_t)u.Hist << 16 : 0)); if ((int)mh.size() > depth) { mh.resize(depth); wrapped = true; } }
         if (frames_ok()) { XF x; x.code = s.emcy[ee].Code; x.usr = usr; memcpy(x.m, u.Emcy, 5); exp.push_back(x); }
       }
-      check_frames(exp, "COEmcySet");
+      if (lost) exp.clear();
+      check_frames(exp, lost ? "COEmcySet with the CAN driver refusing the frame" : "COEmcySet");
     } else if (op == 1) { // clear
       int e = (int)c.t.below(NE);
-      s.api_begin(); COEmcyClr(&s.node->Emcy, (uint8_t)e); s.api_end("COEmcyClr");
+      bool lost = faults && c.t.chance(70); if (lost) { s.can_send_fail = 1; send_faults++; }
+      s.api_begin(); COEmcyClr(&s.node->Emcy, (uint8_t)e); s.api_end("COEmcyClr"); s.can_send_fail = 0;
       VLOG(c, "clr(%d)", e);
       std::vector<XF> exp;
       if (active[e]) { active[e] = false; if (frames_ok()) { XF x; x.code = 0; x.usr = false; exp.push_back(x); } }
-      check_frames(exp, "COEmcyClr");
+      if (lost) exp.clear();
+      check_frames(exp, lost ? "COEmcyClr with the CAN driver refusing the frame" : "COEmcyClr");
     } else if (op == 2) { // reset
       bool silent = c.t.coin();
       s.api_begin(); COEmcyReset(&s.node->Emcy, silent ? 1 : 0); s.api_end("COEmcyReset");
@@ -121,18 +125,23 @@ void one_case(Ctx &c) {
     check_state("the operation");
   }
   if (shared_bit || wrapped) c.nontrivial = true;
+  if (send_faults) c.cls("emcy-frame-refused-by-the-driver");
   if (shared_bit) c.cls("two-errors-share-a-register-bit");
   if (wrapped) c.cls("history-wrapped");
   if (depth == 0) c.cls("no-history-object");
 }
 
+void one_case(Ctx &c) { case_impl(c, false); }
+void faults_case(Ctx &c) { case_impl(c, true); }
+
 Registrar reg(Prop{
     "C15",
     "Cases: node id 1..127, emergency table with register bits 0..7 per error (several errors per bit, generic bit used), 2..11 (32) errors in use, history depth 0..8 (0 = 1003h absent); histories of up to 60 (120) ops: "
-    "COEmcySet(err[, user data]), COEmcyClr, COEmcyReset(silent?), SDO write 0 / non-zero to 1003h:0, SDO reads of 1003h:0..n, NMT state changes and resets, valid/invalid rewrites of 1014h, ticks. "
+    "COEmcySet(err[, user data]), COEmcyClr, COEmcyReset(silent?), SDO write 0 / non-zero to 1003h:0, SDO reads of 1003h:0..n, NMT state changes and resets, valid/invalid rewrites of 1014h, ticks; mode send-faults: the CAN driver refuses the frame of a set/clear call - the frame is lost, state, register, count and history change as if it had been sent. "
     "Oracle: reference model after every step: active set (COEmcyGet), count (COEmcyCnt), 1001h bits, EMCY frames (exactly one per real transition, code, updated register byte, 5 manufacturer bytes, identifier = 1014h; none for silent reset, outside PRE-OP/OP or with an invalid COB-ID), history newest-first with its count, clear on write 0, 0609 0030h otherwise. "
     "Non-trivial: two errors sharing a register bit were active together, or the history wrapped. Distinct = distinct decoded choice sequence.",
-    {Mode{"random", one_case, false, 1500000, 20000000, 0, 0, 260, 500}},
+    {Mode{"random", one_case, false, 1000000, 14000000, 0, 0, 260, 500},
+     Mode{"send-faults", faults_case, false, 500000, 6000000, 0, 0, 260, 500}},
     {"in a non-silent COEmcyReset only the register byte of the last frame is compared with the final register", "reading history sub-indices beyond the current count is not constrained by the statement and not generated"}});
 
 }  // namespace
